@@ -485,3 +485,4 @@ m('c04-r4-slot-moved-out', 'C04', 'C04-R4', 'slot:', diff='selftest/seed_diffs/C
 m('c04-r5-default-attributes-early-exit', 'C04', 'C04-R5', 'entry:any::difficulty::Difficulty::calculate', diff='selftest/seed_diffs/C04-6.diff')
 m('c17-r6-default-attributes-early-exit', 'C17', 'C17-R6', 'entry:osu::difficulty::difficulty', diff='selftest/seed_diffs/C17-6.diff')
 m('c10-r5-raw-clone-drops-zeros', 'C10', 'C10-R5', 'clone:raw_strains', diff='selftest/seed_diffs/C02-6.diff')
+m('c14-r7-fast-path-before-mark', 'C14', 'C14-R7', 'every-path:taiko', diff='selftest/seed_diffs/C14-7.diff')
